@@ -562,7 +562,8 @@ def write_png(matrix, matrix_size, out, colormap, scale=1, border=None, compress
             # Since black is zero, it should be the first entry
             palette = [black, transparent]
         png_trans_idx = palette.index(transparent)
-    if number_of_colors > 2:
+    if number_of_colors > 2 or any(clr != clr_map[dark_idx if mt >> 8 else qz_idx] for mt, clr in clr_map.items()):
+        # More than two colors or the dark / light colors do not depend on the module value only:
         # Need the more expensive matrix iterator
         miter = matrix_iter_verbose(matrix, matrix_size, scale=1, border=0)
         color_index = {module_type: palette.index(clr) for module_type, clr in clr_map.items()}
